@@ -1805,11 +1805,12 @@ func (ctx *RenderContext) toBool(val interface{}) bool {
 	switch v := val.(type) {
 	case bool:
 		return v
-	case int, int8, int16, int32, int64:
+	case int:
 		return v != 0
-	case uint, uint8, uint16, uint32, uint64:
-		return v != 0
-	case float32, float64:
+	case float64:
+		// Note: a case listing several types leaves v an interface value, and an
+		// interface holding float64(0) is never equal to the untyped constant 0,
+		// so every numeric type needs a case of its own (or the reflection below)
 		return v != 0
 	case string:
 		return v != ""
